@@ -266,6 +266,22 @@ func boolEdge(a, b *ssa.BasicBlock) (v ssa.Value, truth bool, ok bool) {
 			c = u.X
 			continue
 		}
+		// x == false, x != true (a switch over a boolean)
+		if bo, isB := c.(*ssa.BinOp); isB && (bo.Op == token.EQL || bo.Op == token.NEQ) {
+			x, k := bo.X, bo.Y
+			kv, isK := constBool(k)
+			if !isK {
+				x, k = bo.Y, bo.X
+				kv, isK = constBool(k)
+			}
+			if isK {
+				if (bo.Op == token.EQL) != kv {
+					truth = !truth
+				}
+				c = x
+				continue
+			}
+		}
 		break
 	}
 	return c, truth, true
